@@ -83,6 +83,19 @@ def is_identity_call(ext):
     return False
 
 
+def const_duration(c):
+    """(secs, nanos) of a compiler-evaluated constant of type std::time::Duration (bytes + field layout from the driver), else None."""
+    if not c or (c.get('ty') or {}).get('s') != 'std::time::Duration' or not c.get('bytes_le') or not c.get('fields'):
+        return None
+    raw = bytes.fromhex(c['bytes_le'])
+    off = {f['name']: f['offset'] for f in c['fields']}
+    if 'secs' not in off or 'nanos' not in off:
+        return None
+    secs = int.from_bytes(raw[off['secs']:off['secs'] + 8], 'little')
+    nanos = int.from_bytes(raw[off['nanos']:off['nanos'] + 4], 'little')
+    return secs, nanos
+
+
 def const_eval(t):
     """Numeric value of a term built from constants and + - only (accumulators keep their structure as terms)."""
     if not isinstance(t, tuple) or not t:
@@ -375,10 +388,31 @@ class SymEx:
                 if o['ty']['s'] == 'bool':
                     v = bool(v)
                 return ('c', v)
+            if o.get('deref_bytes_le') and (o.get('deref_ty') or {}).get('s') == 'std::time::Duration':
+                # `&CONST` / a promoted reference to a Duration constant: what it points to
+                d = const_duration({'ty': o['deref_ty'], 'bytes_le': o['deref_bytes_le'], 'fields': o.get('deref_fields')})
+                if d is not None:
+                    return ('call', 'std::time::Duration::from_secs', (('c', d[0]),)) if d[1] == 0 else ('call', 'std::time::Duration::new', (('c', d[0]), ('c', d[1])))
             if 'item' in o:
                 c = self.prog.consts.get(norm(o['item']))
                 if c is not None and 'val' in c:
                     return ('c', c['val'])
+                if (c is None or ('val' not in c and not c.get('bytes_le'))) and '::' in str(o['item']):
+                    # an associated const of a type PARAMETER (`L::FLUSH_POINT` in `fn should_apply<L: LogLimits>`): the value for the type the
+                    # enclosing inlined generic function was entered with
+                    tr_, _, nm_ = norm(o['item']).rpartition('::')
+                    for fk_, fv_ in st.frames.items():
+                        if isinstance(fk_, str) and fk_.startswith('#gargs:'):
+                            for g_ in fv_:
+                                c2 = self.prog.consts.get('<%s as %s>::%s' % (norm(g_), tr_, nm_))
+                                if c2 is not None and ('val' in c2 or c2.get('bytes_le')):
+                                    c = c2
+                    if c is not None and 'val' in c:
+                        return ('c', c['val'])
+                d = const_duration(c)
+                if d is not None:
+                    # a Duration constant (free, associated, or a trait default evaluated for the impl): the value its initialiser builds
+                    return ('call', 'std::time::Duration::from_secs', (('c', d[0]),)) if d[1] == 0 else ('call', 'std::time::Duration::new', (('c', d[0]), ('c', d[1])))
                 return ('item', norm(o['item']))
             if 'static' in o:
                 return ('static', norm(o['static']))
